@@ -165,6 +165,17 @@ fn dispatch(line: &str) -> Option<String> {
             "toml" => tree_op::<toml::Value>(op, a),
             _ => None,
         },
+        "deep" => {
+            if a.len() != 2 {
+                return None;
+            }
+            let n = parse_n(a[1])?;
+            match a[0] {
+                "json" => Some(ops_doc::op_deep_json(n)),
+                "toml" => Some(ops_doc::op_deep_toml(n)),
+                _ => None,
+            }
+        }
         "cmp" => {
             if a.len() != 2 {
                 return None;
